@@ -38,5 +38,9 @@ for f in fixed:
         print(results[-1], flush=True)
 subprocess.run(["git", "-C", "/repo", "worktree", "remove", "--force", WT], capture_output=True)
 subprocess.run(["rm", "-rf"] + [os.path.join(VERIF, "work", d) for d in os.listdir(os.path.join(VERIF, "work")) if d.startswith("harness-")])
-json.dump(results, open(os.path.join(VERIF, "notes", "reverts.json"), "w"), indent=1)
+out = os.path.join(VERIF, "notes", "reverts.json")
+if only and os.path.exists(out):  # partial run: merge into the existing record
+    prev = [r for r in json.load(open(out)) if r["id"] not in only]
+    results = prev + results
+json.dump(results, open(out, "w"), indent=1)
 print("caught", sum(1 for r in results if r.get("caught")), "of", len(results))
